@@ -13,6 +13,18 @@ def run(tier):
     table = [x for x in tlc_printed_json(r["out"]) if isinstance(x, list)]
     if not table:
         raise ToolError("Sign.tla printed no table")
+    # the algebra behind the table: every (R, A, S, k) over Z_11 x Z_8; families of equation-satisfying forgeries
+    a = run_tlc("SignAlgebra", workers=8, xss="512m", coverage=False, timeout=1800)
+    ck.require_tlc_ok(a, "SignAlgebra.tla (HonestAccepted, Unique, MalleableWithout, CofactoredIsWeaker, MixedShape, Classified, HonestKeyForgeries)")
+    m = run_tlc("MCSignAlgebra", workers=1, xss="512m", coverage=False, timeout=1800, extra=["-maxSetSize", "4000000"])
+    ck.require_tlc_ok(m, "MCSignAlgebra.tla (inhabited forgery families)")
+    fam = [x for x in tlc_printed_json(m["out"]) if isinstance(x, dict) and "families" in x]
+    if not fam:
+        raise ToolError("MCSignAlgebra.tla printed no families")
+    fname = lambda f: "%s/%s/%s" % (f["s"], f["r"], f["a"])
+    inhabited = set(fname(f["family"]) for f in fam[0]["families"])
+    empty = set(fname(f) for f in fam[0]["empty"])
+    accepted = {"reduced/full/honest", "reduced/full/mixed"}
     wd = workdir("c06")
     tf = os.path.join(wd, "table.json")
     json.dump(table[0], open(tf, "w"))
@@ -22,12 +34,21 @@ def run(tier):
         reps = parallel(cfg, lambda o, k, n: ["sign", tf, o, ck.seed, lmax if cfg == "stable" else 40, nseeds if cfg == "stable" else 1, k, n], nproc, os.path.join(wd, "sign_" + cfg))
         for rep in reps:
             _merge(ck, rep, "" if cfg == "stable" else "[%s] " % cfg)
+    # every inhabited family of the algebra was built concretely by the harness, and no family the algebra calls empty was
+    built = set()
+    for rep in reps:
+        built |= set(k[len("family:"):] for k in rep.get("counters", {}) if k.startswith("family:"))
+    if inhabited - built:
+        raise ToolError("forgery families of SignAlgebra.tla the harness did not build: %s" % sorted(inhabited - built))
+    if built - inhabited - accepted:
+        raise ToolError("the harness built equation-satisfying cases in families SignAlgebra.tla calls empty or does not know (specification error): %s" % sorted(built - inhabited - accepted))
+    ck.cov["algebra_families"] = {"forgery_families_inhabited": sorted(inhabited), "empty": sorted(empty), "accepted_shapes": sorted(accepted), "cases_of_the_algebra": fam[0]["counts"]}
     if not ck.cov["distinct_nontrivial"]:
         ck.cov["distinct_nontrivial"] = len(table[0]) * (lmax + 1) * nseeds
     ck.cov["table_cells"] = len(table[0])
     ck.cov["rule"] = ("%d cells of Sign.tla's decision table (R x S x public key x message x signed mode x verified mode, single deviations plus the small-order forgery family) "
                       "x every message length 0..%d x %d seeds; each cell expanded to EVERY bit of R, S, public key and message (thinned to every 37th/29th bit on lengths > 24 not multiple of 16), S + kL for every k that fits 256 bits, "
-                      "the 14 small-order encodings as R and as public key (14 x 14 with S = 0); verdicts compared with the table and with libsodium; signatures compared byte for byte with libsodium in pure and pre-hashed mode, detached, combined, SigningKeyPair and IncrementalSigner" % (len(table[0]), lmax, nseeds))
+                      "the 14 small-order encodings as R and as public key (14 x 14 with S = 0); every inhabited family of SignAlgebra.tla (shape of R x shape of A x reduced/unreduced S, torsion parts searched until the cofactorless equation holds) built with an independent curve library; verdicts compared with the table and with libsodium; signatures compared byte for byte with libsodium in pure and pre-hashed mode, detached, combined, SigningKeyPair and IncrementalSigner" % (len(table[0]), lmax, nseeds))
     ck.assumptions += ["no executable Ed25519 in TLA+: byte exactness rests on libsodium", "non-canonical encodings of points that are not small order cannot be constructed with a valid signature (needs a discrete log): covered by 'both reject' only"]
     return ck.finish()
 
